@@ -21,7 +21,7 @@ def shapes (u : List SGroup) : List Shape := u.flatMap fun g => g.decls.map (dec
 
 /-! ### loadRule / loadRules -/
 
-theorem loadRule_shape {fixed env pkg g r x} (h : loadRule fixed env pkg g r = .ok x) :
+theorem loadRule_shape {fixed env own pkg g r x} (h : loadRule fixed env own pkg g r = .ok x) :
     x.shape = declShape g r := by
   unfold loadRule at h
   split at h <;> try cases h
@@ -29,7 +29,7 @@ theorem loadRule_shape {fixed env pkg g r x} (h : loadRule fixed env pkg g r = .
   split at h <;> try cases h
   rfl
 
-theorem loadRules_shape {fixed env pkg g} : ∀ {rs xs}, loadRules fixed env pkg g rs = .ok xs →
+theorem loadRules_shape {fixed env own pkg g} : ∀ {rs xs}, loadRules fixed env own pkg g rs = .ok xs →
     xs.map Rule.shape = rs.map (declShape g)
   | [], xs, h => by simp [loadRules] at h; subst h; rfl
   | r :: rs, xs, h => by
@@ -45,8 +45,8 @@ theorem loadRules_shape {fixed env pkg g} : ∀ {rs xs}, loadRules fixed env pkg
 
 /-! ### loadGroup / loadGroups -/
 
-theorem loadGroup_ok {fixed env pkg pfx file rejected res g res'}
-    (h : loadGroup fixed env pkg pfx file rejected res g = .ok res') :
+theorem loadGroup_ok {fixed env own pkg pfx file rejected res g res'}
+    (h : loadGroup fixed env own pkg pfx file rejected res g = .ok res') :
     (rejected.contains (pfx, g.name) = true ∧ res' = res) ∨
     (rejected.contains (pfx, g.name) = false ∧
       res.groups.any (fun x => x.name == (pfx, g.name)) = false ∧
@@ -78,8 +78,8 @@ theorem acceptedDecls_cons_acc {pfx rejected g gs} (h : rejected.contains (pfx, 
     acceptedDecls pfx rejected (g :: gs) = g :: acceptedDecls pfx rejected gs := by
   unfold acceptedDecls; rw [List.filter_cons]; simp_all
 
-theorem loadGroups_ok {fixed env pkg pfx file rejected} : ∀ {gs res res'},
-    loadGroups fixed env pkg pfx file rejected res gs = .ok res' →
+theorem loadGroups_ok {fixed env own pkg pfx file rejected} : ∀ {gs res res'},
+    loadGroups fixed env own pkg pfx file rejected res gs = .ok res' →
     res'.groups = res.groups ++ (acceptedDecls pfx rejected gs).map (fun g => ⟨(pfx, g.name), file, g.line⟩) ∧
     res'.rules.map Rule.shape = res.rules.map Rule.shape ++
       (acceptedDecls pfx rejected gs).flatMap (fun g => g.rules.map (declShape (pfx, g.name)))
@@ -711,7 +711,104 @@ theorem getFunc_lt {fixed env k id} (h : getFunc fixed env k = .ok id) : id < en
       · cases h; assumption
       · cases h
 
-theorem getFuncOpt_lt {fixed env pkg o x} (h : getFuncOpt fixed env pkg o = .ok x) :
+/-! ### the repaired loader's table of the file's own functions -/
+
+/-- every id in `own` is below `n` -/
+def OwnBelow (n : Nat) (own : List (Nat × Nat)) : Prop := ∀ x ∈ own, x.2 < n
+
+theorem customFuncs_mem : ∀ (ds : List FuncDecl) (base : Nat) (x : Nat × Nat), x ∈ customFuncs base ds →
+    ∃ i d, ds[i]? = some d ∧ x = (d.name, base + i)
+  | [], base, x, h => by simp [customFuncs] at h
+  | d :: ds, base, x, h => by
+    simp only [customFuncs, List.mem_append, List.mem_singleton] at h
+    rcases h with h | rfl
+    · obtain ⟨i, d', h1, rfl⟩ := customFuncs_mem ds (base + 1) x h
+      refine ⟨i + 1, d', by simpa using h1, ?_⟩
+      rw [Nat.add_assoc, Nat.add_comm 1 i]
+    · exact ⟨0, d, rfl, rfl⟩
+
+theorem ownLookup_mem {own : List (Nat × Nat)} {n id : Nat} (h : ownLookup own n = some id) : (n, id) ∈ own := by
+  unfold ownLookup at h
+  split at h
+  · rename_i x hx
+    cases h
+    have h1 := List.find?_some hx
+    have h2 := List.mem_of_find?_eq_some hx
+    have : x.1 = n := by simpa using h1
+    rw [← this]; exact h2
+  · cases h
+
+theorem ownLookup_append (a b : List (Nat × Nat)) (n : Nat) :
+    ownLookup (a ++ b) n = match ownLookup a n with | some id => some id | none => ownLookup b n := by
+  unfold ownLookup
+  rw [List.find?_append]
+  cases List.find? (fun x => x.1 == n) a <;> rfl
+
+theorem compileFuncs_len : ∀ (ds : List FuncDecl) (env env' : Env), compileFuncs env ds = (env', .ok ()) →
+    env'.funcs.length = env.funcs.length + ds.length
+  | [], env, env', h => by simp [compileFuncs] at h; subst h; rfl
+  | d :: ds, env, env', h => by
+    unfold compileFuncs at h
+    split at h
+    · simp at h
+    · split at h
+      · have := compileFuncs_len ds _ _ h
+        simp only [Env.addFunc, List.length_append, List.length_singleton] at this
+        simp only [List.length_cons]; omega
+      · split at h
+        · simp at h
+        · have := compileFuncs_len ds _ _ h
+          simp only [Env.addFunc, List.length_append, List.length_singleton] at this
+          simp only [List.length_cons]; omega
+
+/-- `customFuncs` is exactly what the declaration loop prepends to the engine-wide name table -/
+theorem compileFuncs_names : ∀ (ds : List FuncDecl) (env env' : Env), compileFuncs env ds = (env', .ok ()) →
+    env'.names = (customFuncs env.funcs.length ds).map (fun x => ((gorules, x.1), x.2)) ++ env.names
+  | [], env, env', h => by simp [compileFuncs] at h; subst h; simp [customFuncs]
+  | d :: ds, env, env', h => by
+    unfold compileFuncs at h
+    split at h
+    · simp at h
+    · split at h
+      · have := compileFuncs_names ds _ _ h
+        simpa [Env.addFunc, customFuncs] using this
+      · split at h
+        · simp at h
+        · have := compileFuncs_names ds _ _ h
+          simpa [Env.addFunc, customFuncs] using this
+
+theorem customFuncs_below (ds : List FuncDecl) (base : Nat) : OwnBelow (base + ds.length) (customFuncs base ds) := by
+  intro x hx
+  obtain ⟨i, d, h1, rfl⟩ := customFuncs_mem ds base x hx
+  have : i < ds.length := by
+    rcases Nat.lt_or_ge i ds.length with h | h
+    · exact h
+    · rw [List.getElem?_eq_none h] at h1; cases h1
+  simp only; omega
+
+/-- after a successful `compileFilterFuncs` the table of own functions only holds valid ids -/
+theorem ownOf_below {fixed : Bool} {env e1 : Env} {u : FileUnit}
+    (hc : compileFilterFuncs fixed env u = (e1, .ok ())) : OwnBelow e1.funcs.length (ownOf fixed env u) := by
+  unfold ownOf
+  cases fixed
+  · intro x hx; simp at hx
+  · unfold compileFilterFuncs at hc
+    split at hc
+    · simp at hc
+    · simp only [if_true] at hc ⊢
+      have := compileFuncs_len _ _ _ hc
+      simp only [Env.forget] at this
+      rw [this]
+      exact customFuncs_below _ _
+
+theorem ownFunc_ok {own : List (Nat × Nat)} {n id : Nat} (h : ownFunc own n = .ok id) : ownLookup own n = some id := by
+  unfold ownFunc at h
+  split at h
+  · cases h; assumption
+  · cases h
+
+theorem getFuncOpt_lt {fixed env own pkg o x} (hown : OwnBelow env.funcs.length own)
+    (h : getFuncOpt fixed env own pkg o = .ok x) :
     ∀ id, x = some id → id < env.funcs.length := by
   unfold getFuncOpt at h
   split at h
@@ -719,11 +816,15 @@ theorem getFuncOpt_lt {fixed env pkg o x} (h : getFuncOpt fixed env pkg o = .ok 
   · split at h
     · rename_i id' hg
       cases h
-      intro id hid; cases hid; exact getFunc_lt hg
+      intro id hid; cases hid
+      cases fixed
+      · exact getFunc_lt (by simpa using hg)
+      · exact hown _ (ownLookup_mem (ownFunc_ok (by simpa using hg)))
     · cases h
     · cases h
 
-theorem loadRule_ids {fixed env pkg g r x} (h : loadRule fixed env pkg g r = .ok x) :
+theorem loadRule_ids {fixed env own pkg g r x} (hown : OwnBelow env.funcs.length own)
+    (h : loadRule fixed env own pkg g r = .ok x) :
     (∀ id, x.doFn = some id → id < env.funcs.length) ∧ (∀ id, x.filtFn = some id → id < env.funcs.length) := by
   unfold loadRule at h
   split at h <;> try cases h
@@ -731,10 +832,10 @@ theorem loadRule_ids {fixed env pkg g r x} (h : loadRule fixed env pkg g r = .ok
   split at h <;> try cases h
   rename_i f hf
   split at h <;> try cases h
-  exact ⟨getFuncOpt_lt hd, getFuncOpt_lt hf⟩
+  exact ⟨getFuncOpt_lt hown hd, getFuncOpt_lt hown hf⟩
 
-theorem loadRules_ids {fixed env pkg g} : ∀ {rs xs}, loadRules fixed env pkg g rs = .ok xs →
-    RuleIdsBelow env.funcs.length xs
+theorem loadRules_ids {fixed env own pkg g} (hown : OwnBelow env.funcs.length own) :
+    ∀ {rs xs}, loadRules fixed env own pkg g rs = .ok xs → RuleIdsBelow env.funcs.length xs
   | [], xs, h => by simp [loadRules] at h; subst h; intro r hr; cases hr
   | r :: rs, xs, h => by
     unfold loadRules at h
@@ -745,13 +846,13 @@ theorem loadRules_ids {fixed env pkg g} : ∀ {rs xs}, loadRules fixed env pkg g
       cases h
       intro q hq
       rcases List.mem_cons.1 hq with rfl | hq
-      · exact loadRule_ids hx
-      · exact loadRules_ids hys q hq
+      · exact loadRule_ids hown hx
+      · exact loadRules_ids hown hys q hq
     · rename_i o hne
       cases o <;> simp_all
 
-theorem loadGroup_ids {fixed env pkg pfx file rejected res g res'}
-    (h : loadGroup fixed env pkg pfx file rejected res g = .ok res')
+theorem loadGroup_ids {fixed env own pkg pfx file rejected res g res'} (hown : OwnBelow env.funcs.length own)
+    (h : loadGroup fixed env own pkg pfx file rejected res g = .ok res')
     (hb : RuleIdsBelow env.funcs.length res.rules) : RuleIdsBelow env.funcs.length res'.rules := by
   unfold loadGroup at h
   simp only at h
@@ -761,17 +862,17 @@ theorem loadGroup_ids {fixed env pkg pfx file rejected res g res'}
     · cases fixed <;> simp at h
     · split at h <;> try cases h
       rename_i rs hrs
-      exact hb.append (loadRules_ids hrs)
+      exact hb.append (loadRules_ids hown hrs)
 
-theorem loadGroups_ids {fixed env pkg pfx file rejected} : ∀ {gs res res'},
-    loadGroups fixed env pkg pfx file rejected res gs = .ok res' →
+theorem loadGroups_ids {fixed env own pkg pfx file rejected} (hown : OwnBelow env.funcs.length own) :
+    ∀ {gs res res'}, loadGroups fixed env own pkg pfx file rejected res gs = .ok res' →
     RuleIdsBelow env.funcs.length res.rules → RuleIdsBelow env.funcs.length res'.rules
   | [], res, res', h, hb => by simp [loadGroups] at h; subst h; exact hb
   | g :: gs, res, res', h, hb => by
     unfold loadGroups at h
     split at h
     · rename_i r1 h1
-      exact loadGroups_ids h (loadGroup_ids h1 hb)
+      exact loadGroups_ids hown h (loadGroup_ids hown h1 hb)
     · rename_i o hne
       cases o <;> simp_all
 
@@ -782,7 +883,7 @@ theorem loadUnit_ids {fixed env pkg pfx rejected u env' rs}
   · rename_i e1 hc
     simp only [Prod.mk.injEq] at h
     obtain ⟨rfl, h2⟩ := h
-    exact loadGroups_ids h2 (by intro r hr; cases hr)
+    exact loadGroups_ids (ownOf_below hc) h2 (by intro r hr; cases hr)
   · simp at h
   · simp at h
 
